@@ -58,6 +58,14 @@ func walk(v reflect.Value, path string, out *[]string, seen map[uintptr]bool) {
 		walk(e, path, out, seen)
 	case reflect.Struct:
 		t := v.Type()
+		// what the element's text reads as through its getter (the value the engine works with), untrimmed
+		if v.CanAddr() {
+			if m := v.Addr().MethodByName("TextPayload"); m.IsValid() && m.Type().NumIn() == 0 && m.Type().NumOut() == 1 {
+				if r := m.Call(nil)[0]; r.Kind() == reflect.Pointer && !r.IsNil() && r.Elem().Kind() == reflect.String && r.Elem().String() != "" {
+					*out = append(*out, fmt.Sprintf("%s!TextPayload() = %q", path, r.Elem().String()))
+				}
+			}
+		}
 		for i := 0; i < v.NumField(); i++ {
 			f := t.Field(i)
 			if !f.IsExported() {
@@ -265,11 +273,16 @@ func slots(v reflect.Value, path, class string, out *[]Slot, seen map[uintptr]bo
 		case reflect.String:
 			if v.CanSet() {
 				vv := v
+				text := strings.HasSuffix(path, "TextPayloadField")
 				*out = append(*out, Slot{path, class, func() {
 					nv := reflect.New(et)
-					if vv.IsNil() {
+					switch {
+					case vv.IsNil():
 						nv.Elem().SetString("m")
-					} else {
+					case text:
+						// character data set by a program: padded with white space other than blank, tab and line feed
+						nv.Elem().SetString("\u00a0\r" + strings.TrimSpace(vv.Elem().String()) + "_m\r\u2028\u00a0")
+					default:
 						nv.Elem().SetString(vv.Elem().String() + "_m")
 					}
 					vv.Set(nv)
